@@ -282,12 +282,26 @@ func cloneSpec(c vkit.ClientSpec) vkit.ClientSpec {
 	return c
 }
 
+// registrable: a string an administrator can be assumed to put into a registration (sound input domain): an absolute URI in
+// normalised spelling without userinfo, fragment or backslashes. Strings an earlier flow merely REQUESTED (userinfo and
+// backslash tricks, upper-case schemes, relative references ...) are requested again later but never become registrations.
+func registrable(raw string) bool {
+	u, err := url.Parse(raw)
+	if err != nil || u.Scheme == "" || u.Scheme == "javascript" || u.User != nil || u.Fragment != "" {
+		return false
+	}
+	if strings.ContainsAny(raw, "\\#@ ") || u.String() != raw {
+		return false
+	}
+	return u.Host != "" || u.Opaque != "" || u.Path != ""
+}
+
 // changeKinds: what an administrator does to a registration between two flows
-var changeKinds = []string{"same", "same", "remove_uri", "remove_uri", "remove_uri", "add_uri", "replace_uri", "replace_uri", "replace_all",
+var changeKinds = []string{"same", "same", "remove_uri", "remove_uri", "remove_uri", "add_uri", "add_uri", "replace_uri", "replace_uri", "replace_all",
 	"globs_switch", "globs_switch", "glob_swap", "dev_switch", "dev_switch", "apptype", "response_types", "unregister"}
 
 // genChange derives the next registration of a client id from the one in force (a deep copy is changed).
-func genChange(t *rapid.T, cur vkit.ClientSpec) (vkit.ClientSpec, string, bool) {
+func genChange(t *rapid.T, cur vkit.ClientSpec, known []string) (vkit.ClientSpec, string, bool) {
 	cl := cloneSpec(cur)
 	kind := rapid.SampledFrom(changeKinds).Draw(t, "change")
 	switch kind {
@@ -306,7 +320,19 @@ func genChange(t *rapid.T, cur vkit.ClientSpec) (vkit.ClientSpec, string, bool) 
 			cl.RedirectURIs[i] = u
 		}
 	case "add_uri":
-		u := genRegistered(t, "add")
+		// a new URI, or one this client id has a history with (removed earlier and put back; requested - and refused - before)
+		var back []string
+		for _, u := range known {
+			if !contains(cl.RedirectURIs, u) && registrable(u) {
+				back = append(back, u)
+			}
+		}
+		var u string
+		if len(back) > 0 && rapid.Bool().Draw(t, "addback") {
+			u, kind = rapid.SampledFrom(back).Draw(t, "back"), "add_uri_from_history"
+		} else {
+			u = genRegistered(t, "add")
+		}
 		if !contains(cl.RedirectURIs, u) {
 			cl.RedirectURIs = append(cl.RedirectURIs, u)
 		}
@@ -431,7 +457,7 @@ func genCase(t *rapid.T) Case {
 			f.Client, f.Change = cloneSpec(s.reg), "reregister"
 			s.gone = false
 		default:
-			f.Client, f.Change, f.Unregistered = genChange(t, s.reg)
+			f.Client, f.Change, f.Unregistered = genChange(t, s.reg, hist[id])
 			s.reg, s.gone = f.Client, f.Unregistered
 		}
 		fc := &f.Client
@@ -831,8 +857,9 @@ func run(c Case) *vkit.Result {
 			res.Info = out.info
 		}
 		if len(flows) > 1 {
-			res.Label("seq:change:"+f.Change, "seq:rel:"+f.Relation, fmt.Sprintf("seq:flow%d:path:%s", i, out.path))
+			res.Label("seq:rel:"+f.Relation, fmt.Sprintf("seq:flow%d:path:%s", i, out.path))
 			if i > 0 {
+				res.Label("seq:change:" + f.Change)
 				res.NonTrivial = true
 				keys[i] = fmt.Sprintf("p%d|%s|%s|%s", f.Prov, f.Client.ID, f.Change, keys[i])
 				if f.Prov == flows[i-1].Prov && f.Client.ID == flows[i-1].Client.ID {
@@ -1175,7 +1202,9 @@ func directAPI(res *vkit.Result, c Flow, cl *vkit.ClientSpec, sut *vkit.SUT) {
 var prop = vkit.Prop[Case]{
 	ID: "C03",
 	Rule: "cases = client registration (application type x dev mode x auth method x response types x 1-4 registered URIs from a grammar x optional opted-in or dormant globs) x requested redirect_uri (registered or one of 30 near-miss relations) x response_type x response_mode x error path (24 kinds incl. pre-validation errors, request objects, storage faults, missing login) x router, driven authorize->login->callback; " +
-		"non-trivial = requested URI is not a registered string, or an error path taken after URI validation; distinct = (router, client class, registered schemes, relation, response type/mode, error path, path taken, model reason)",
+		"half of the cases are SEQUENCES of 2-4 such flows on one long-lived provider instance (optionally a second instance, either router, with its own storage that knows the same client ids with other URIs), for the same or another client, with a generated registration change between flows (URI removed / added / replaced, all replaced, glob opt-in switched, glob changed, dev mode switched, application type / response types changed, client unregistered and re-registered; the storage hands out a fresh record), " +
+		"later flows preferring URIs from the history of that client id (held by an earlier or the other provider's registration, requested before, registered by the other client) and the response type / mode of the previous flow, any response optionally written to a ResponseWriter that breaks after k body bytes; every response of every flow is judged against the registration in force for that flow on that provider, form_post pages by EVERY form / link / refresh in the page; " +
+		"non-trivial = requested URI is not a registered string, or an error path taken after URI validation, or a sequence; distinct = per flow (router, client class, registered schemes, relation, response type/mode, error path, path taken, model reason) + (provider, client id, change)",
 	Gen: genCase,
 	Run: run,
 }
